@@ -313,7 +313,9 @@ Definition F_hop (q : quirks) (e : edge) : option (Q * Q -> Q * Q) :=
   else match hop_fn e with Some f => Some (lift f) | None => None end.
 
 Definition F_run_hops (q : quirks) (hs : list edge) (p : Q * Q) : option (Q * Q) :=
-  fold_left (fun acc h => match acc, F_hop q h with Some v, Some f => Some (f v) | _, _ => None end) hs (Some p).
+  fold_left (fun acc h => match acc, F_hop q h with
+                          | Some v, Some f => let r := f v in Some (Qred (fst r), Qred (snd r))   (* same value, small numbers *)
+                          | _, _ => None end) hs (Some p).
 
 Definition F_to_scale (q : quirks) (a b : string) (p : Q * Q) : option Q :=
   if (a =? b)%string then Some (fst p + snd p)
